@@ -33,6 +33,9 @@ def register(S):
                        "same(ev_val('GetAttr', 0, 1), val) and ev_val('GetAttr', 0, 2) == 'args' and "
                        "(ev_raised('GetAttr', 0) or not truthy(ev_val('GetAttr', 0, 3))))", P9),
                    "the_record_is_plain": ("plain(result)", P9 + ["C08", "C01"]),
+                   # the attribute names are those of the exception OBJECT (instance attributes included)
+                   "names_come_from_the_exception_object": (
+                       "implies(%s, n_ops() >= 1 and op_name(0) == 'dir' and same(op_target(0), val))" % REC, P9),
                    "names_the_class": ("implies(%s, nth_item(result, 0) == pair(meta_attr(typ, '__module__'), meta_attr(typ, '__name__')))" % REC, P9),
                    "traceback_only_when_allowed": (
                        "implies(%s, n_ev('TbFormat') == (1 if truthy(include_local_traceback) else 0) and "
